@@ -344,6 +344,19 @@ def check_graph_rewrite(inp):
         return [f'{op} raised {type(e).__name__}: {e}']
     if not g.is_consistent():
         fails.append(f'graph inconsistent after {op}')
+    if not isinstance(g.nid_terminal, list) or any(not (isinstance(n.eids, tuple) and all(isinstance(x, list) for x in n.eids)) for n in g.nodes.values()) \
+            or any(not isinstance(e.nids, list) for e in g.edges.values()):
+        fails.append(f'container types changed by {op} (a later rewrite on this graph fails)')
+    else:
+        # a follow-up rename of both terminal nodes must still work (sequences of rewrites)
+        try:
+            g2 = copy.deepcopy(g)
+            big = max(list(g2.nodes.keys())) + 1000
+            g2.rename_node_id(g2.nid_terminal[0], big); g2.rename_node_id(g2.nid_terminal[1], big + 1)
+            if not g2.is_consistent():
+                fails.append(f'renaming the terminal nodes after {op} leaves an inconsistent graph')
+        except Exception as e:
+            fails.append(f'renaming the terminal nodes after {op} raised {type(e).__name__}: {e}')
     try:
         w1 = W.graph_words(g)
     except Exception as e:
@@ -1063,6 +1076,8 @@ def check_molecular(inp):
     tk = arr(inp['tkin']); vi = arr(inp['vint'])
     if np.all(tk.imag == 0) and np.all(vi.imag == 0):
         tk = tk.real.astype(float); vi = vi.real.astype(float)
+    if inp.get('dtype') == 'int':
+        tk = np.rint(tk).astype(int); vi = np.rint(vi).astype(int)
     L = tk.shape[0]
     kind, opt = inp['kind'], inp['optimize']
     f = ptn.molecular_hamiltonian_mpo if kind == 'spinless' else ptn.spin_molecular_hamiltonian_mpo
